@@ -15,9 +15,14 @@
  *   TagSet v type text hi lo | TagClear type text hi lo | TagClearAll
  *   Log file func line prio fmt
  *   Reset                       (qb_log_fini + qb_log_init: a fresh logging system)
+ * Histories are executed in batches of BATCH per forked child: within a batch every Reset is a real
+ * qb_log_fini + qb_log_init; a new child bounds what fini leaves behind (lib/log_dcs.c keeps counting
+ * call-site slots across fini/init, so one process cannot re-initialise for ever).  A child that dies
+ * (sanitizer report, assertion) makes the harness exit non-zero.
  * The harness only projects: no routing decision is made here.                                     */
 #include "os_base.h"
 #include <syslog.h>
+#include <sys/wait.h>
 #include <qb/qblog.h>
 #include "vtrace.h"
 
@@ -88,22 +93,40 @@ static int32_t filter(int32_t t, enum qb_log_filter_conf c, int type, const char
 	return qb_log_filter_ctl2(t, c, (enum qb_log_filter_type)type, text, (uint8_t)hi, (uint8_t)lo);
 }
 
-int main(int argc, char **argv)
+#define BATCH 200
+
+static int is_reset(const char *line) { return !strncmp(line, "Reset", 5); }
+
+static void tokenize(const char *line, struct vt_line *L)
 {
-	if (argc < 3) return 2;
-	FILE *f = fopen(argv[1], "r");
-	if (!f) { perror(argv[1]); return 2; }
-	vt_open(argv[2]);
-	struct vt_line L;
+	char *save = NULL;
+	snprintf(L->raw, sizeof(L->raw), "%s", line);
+	L->n = 0;
+	for (char *t = strtok_r(L->raw, " \t\r\n", &save); t && L->n < VT_MAXTOK; t = strtok_r(NULL, " \t\r\n", &save))
+		L->tok[L->n++] = t;
+}
+
+/* execute lines[from, to) in this (fresh) process, appending the events to `out` */
+static int run(char **lines, long from, long to, const char *out)
+{
+	static struct vt_line L;
 	static char a[MAXS], b[MAXS], c[MAXS];
+	vt_out = fopen(out, "a");
+	if (!vt_out) { perror(out); return 2; }
+	setvbuf(vt_out, NULL, _IOFBF, 1 << 20);
 	fresh();
-	while (vt_readline(f, &L)) {
+	for (long k = from; k < to; k++) {
+		tokenize(lines[k], &L);
+		if (L.n == 0) continue;
 		const char *op = L.tok[0];
 		ndl = 0;
 		if (!strcmp(op, "Reset")) {
-			qb_log_fini();
-			fresh();
+			if (k > from) {           /* at the start of a batch the process itself is fresh */
+				qb_log_fini();
+				fresh();
+			}
 			vt_simple("Reset");
+			vt_flush();
 		} else if (!strcmp(op, "Open")) {
 			int32_t t = qb_log_custom_open(logger, closer, NULL, NULL);
 			vt_ev(op); vt_i(t >= 0 ? t - SLOT0 : t - 1000); vt_res(); vt_i(t >= 0 ? 0 : t); vt_end();
@@ -160,5 +183,42 @@ int main(int argc, char **argv)
 	}
 	qb_log_fini();
 	vt_close();
+	return 0;
+}
+
+int main(int argc, char **argv)
+{
+	if (argc < 3) return 2;
+	FILE *f = fopen(argv[1], "r");
+	if (!f) { perror(argv[1]); return 2; }
+	char **lines = NULL;
+	long n = 0, cap = 0;
+	static char buf[4096];
+	while (fgets(buf, sizeof(buf), f)) {
+		if (n == cap) { cap = cap ? 2 * cap : 1024; lines = realloc(lines, cap * sizeof(*lines)); if (!lines) return 2; }
+		lines[n++] = strdup(buf);
+	}
+	fclose(f);
+	f = fopen(argv[2], "w");
+	if (!f) { perror(argv[2]); return 2; }
+	fclose(f);
+	long i = 0;
+	while (i < n) {
+		long j = i + 1;
+		int resets = 0;
+		while (j < n) {
+			if (is_reset(lines[j]) && ++resets == BATCH) break;
+			j++;
+		}
+		fflush(NULL);
+		pid_t pid = fork();
+		if (pid < 0) { perror("fork"); return 2; }
+		if (pid == 0) exit(run(lines, i, j, argv[2]));
+		int st = 0;
+		if (waitpid(pid, &st, 0) < 0) { perror("waitpid"); return 2; }
+		if (!WIFEXITED(st)) return 100 + (WIFSIGNALED(st) ? WTERMSIG(st) : 0);
+		if (WEXITSTATUS(st) != 0) return WEXITSTATUS(st);
+		i = j;
+	}
 	return 0;
 }
